@@ -106,7 +106,7 @@ pub mod state_handle {
     //@ fn src/writers/file_log_writer/state_handle.rs impl StateHandle / fn plain_write
     //@   ret r
     //@   props C15
-    //@   rule R3 1
+    //@   rule R3 *
     //@   req[plain_write.pre.perm] forall|b: Seq<u8>| #[trigger] wb_ok(b) <==> b == buffer@
     //@   closure 1 sig |_e: std::sync::PoisonError<std::sync::MutexGuard<'_, State>>| -> (r: std::io::Error)
     //@   closure 2 sig |_u: ()| -> (r: usize)
@@ -122,20 +122,20 @@ pub mod state_handle {
     //@ fn src/writers/file_log_writer/state_handle.rs impl StateHandle / fn reset
     //@   ret r
     //@   props C18
-    //@   rule R3 1
+    //@   rule R3 *
     //@   req[reset.pre.perm] forall|b: &FileLogWriterBuilder| #[trigger] build_ok(b) <==> (b == flwb && exists|m: WriteMode| assert_result(flwb, m) is Ok)
     //@   ens[reset.post.ok] r is Ok ==> build_result(flwb) is Ok
     //@   canary
     //@ fn src/writers/file_log_writer/state_handle.rs impl StateHandle / fn reopen_outputfile
     //@   ret r
     //@   props C18
-    //@   rule R3 1
+    //@   rule R3 *
     //@   ens[StateHandle::reopen_outputfile.post] r is Ok ==> reopen_result() is Ok
     //@   ens[StateHandle::reopen_outputfile.post.handed_over] !self.poisoned() ==> (r is Ok <==> reopen_result() is Ok)
     //@ fn src/writers/file_log_writer/state_handle.rs impl StateHandle / fn rotate
     //@   ret r
     //@   props C18,C01
-    //@   rule R3 1
+    //@   rule R3 *
     //@   req[rotate.pre.perm] forall|f: bool| #[trigger] mount_ok(f) <==> f
     //@   ens[StateHandle::rotate.post] r is Ok ==> mount_result(true) is Ok
     //@   ens[StateHandle::rotate.post.handed_over] !self.poisoned() ==> r == mount_result(true)
